@@ -487,3 +487,188 @@ func ruleFramePrefixBits(c *Ctx) {
 		c.OK("prefix-bits", pos, "'$', channel and 16-bit length survive Packet.Write -> ReadPacket bit for bit")
 	}
 }
+
+// ---------------------------------------------------------------- configuration-specialised rules
+
+func init() {
+	add := func(prop string, r *RuleDoc) {
+		if p := properties[prop]; p != nil {
+			p.Rules = append(p.Rules, r)
+		}
+	}
+	add("C15", &RuleDoc{Name: "R-CROP-UNIT-TABLE", Text: "Constant propagation of the cropping-unit coefficients of Width()/Height() under every (chroma_format_idc, separate_colour_plane_flag, frame_mbs_only_flag) configuration equals H.264 Table 6-1 / H.265 Table 6-1 (SubWidthC, SubHeightC x (2 - frame_mbs_only_flag)).", Run: ruleCropUnitTable})
+	add("C08", &RuleDoc{Name: "R-MEDIA-TAG-BODY-BITS", Text: "VIDEODATA (AVC/HEVC NALU) and AUDIODATA (AAC) headers evaluated under their configuration: frame type/codec id nibbles, packet type, 24-bit composition time, 32-bit NAL length; sound format/rate/size/type bits, AAC packet type.", Run: ruleMediaTagBodyBits})
+	addMutants(
+		&Mutant{Prop: "C15", Name: "c15-422-height-unit", File: "av/codec/h264/sps.go",
+			Old: "\t\tcase 2: // 4:2:2\n\t\t\tsubWidthC, subHeightC = 2, 1", New: "\t\tcase 2: // 4:2:2\n\t\t\tsubWidthC, subHeightC = 2, 2", Expect: "R-CROP-UNIT-TABLE"},
+		&Mutant{Prop: "C15", Name: "c15-hevc-422-height-unit", File: "av/codec/hevc/sps.go",
+			Old: "\t\tif sps.Chroma_format_idc == 1 &&\n\t\t\tsps.Separate_colour_plane_flag == 0 {\n\t\t\tsub_height_c = 2", New: "\t\tif (sps.Chroma_format_idc == 1 || sps.Chroma_format_idc == 2) &&\n\t\t\tsps.Separate_colour_plane_flag == 0 {\n\t\t\tsub_height_c = 2", Expect: "R-CROP-UNIT-TABLE"},
+		&Mutant{Prop: "C08", Name: "c08-cts-16-bits", File: "av/format/flv/videodata.go",
+			Old: "(videoData.CompositionTime&0x00ffffff))", New: "(videoData.CompositionTime&0x0000ffff))", Expect: "R-MEDIA-TAG-BODY-BITS"},
+		&Mutant{Prop: "C08", Name: "c08-sound-rate-shift", File: "av/format/flv/audiodata.go",
+			Old: "\t\t((audioData.SoundRate & 0x03) << 2) |", New: "\t\t((audioData.SoundRate & 0x03) << 1) |", Expect: "R-MEDIA-TAG-BODY-BITS"},
+	)
+}
+
+func ruleCropUnitTable(c *Ctx) {
+	p := c.P
+	type spec struct {
+		rel, fn string
+		crop    []string // crop offset fields whose sum is multiplied by the unit
+		h265    bool
+		height  bool
+	}
+	for _, s := range []spec{
+		{"av/codec/h264", "(*RawSPS).Width", []string{"FrameCropLeftOffset", "FrameCropRightOffset"}, false, false},
+		{"av/codec/h264", "(*RawSPS).Height", []string{"FrameCropTopOffset", "FrameCropBottomOffset"}, false, true},
+		{"av/codec/hevc", "(*H265RawSPS).Width", []string{"Conf_win_left_offset", "Conf_win_right_offset"}, true, false},
+		{"av/codec/hevc", "(*H265RawSPS).Height", []string{"Conf_win_top_offset", "Conf_win_bottom_offset"}, true, true},
+	} {
+		fn := p.Func(s.rel, s.fn)
+		if fn == nil {
+			c.Lost(s.rel+"."+s.fn, "not found")
+			continue
+		}
+		c.touched(fname(fn))
+		// the multiplication whose one operand depends on the crop offsets
+		var mul *ssa.BinOp
+		var coef ssa.Value
+		instrs(fn, func(ins ssa.Instruction) {
+			b, ok := ins.(*ssa.BinOp)
+			if !ok || b.Op != token.MUL {
+				return
+			}
+			dx := dependsOnField(b.X, s.crop[0]) && dependsOnField(b.X, s.crop[1])
+			dy := dependsOnField(b.Y, s.crop[0]) && dependsOnField(b.Y, s.crop[1])
+			if dx && !dy {
+				mul, coef = b, b.Y
+			} else if dy && !dx {
+				mul, coef = b, b.X
+			}
+		})
+		key := "crop-unit:" + fname(fn)
+		if mul == nil {
+			c.Undecided(key, p.Pos(fn.Pos()), "cannot identify `unit x (offset + offset)` in the dimension function")
+			continue
+		}
+		bad := 0
+		cells := 0
+		for idc := int64(0); idc <= 3; idc++ {
+			for sep := int64(0); sep <= 1; sep++ {
+				if sep == 1 && idc != 3 {
+					continue // separate_colour_plane_flag is only present for 4:4:4
+				}
+				for fmo := int64(0); fmo <= 1; fmo++ {
+					if s.h265 && fmo == 0 {
+						continue
+					}
+					env := map[string]int64{}
+					if s.h265 {
+						env["Chroma_format_idc"], env["Separate_colour_plane_flag"], env["Conformance_window_flag"] = idc, sep, 1
+					} else {
+						env["ChromaFormatIdc"], env["SeparateColourPlaneFlag"], env["FrameMbsOnlyFlag"] = idc, sep, fmo
+					}
+					e := newBitEval(p, fn)
+					e.runPath(env) // may stop at a non-constant branch; the coefficient must already be determined
+					got, ok := constOf(e.eval(coef), coef.Type())
+					cells++
+					// Table 6-1
+					cat := idc
+					if sep == 1 {
+						cat = 0
+					}
+					sw, sh := int64(1), int64(1)
+					switch cat {
+					case 1:
+						sw, sh = 2, 2
+					case 2:
+						sw, sh = 2, 1
+					}
+					want := sw
+					if s.height {
+						want = sh
+						if !s.h265 {
+							want = sh * (2 - fmo)
+						}
+					}
+					if !ok || got != want {
+						bad++
+						c.Bad(key, p.InstrPos(mul), fmt.Sprintf("for chroma_format_idc=%d separate_colour_plane=%d frame_mbs_only=%d the crop offsets are multiplied by %d (constant=%v); the standard's crop unit is %d", idc, sep, fmo, got, ok, want))
+					}
+				}
+			}
+		}
+		if bad == 0 {
+			c.OK(key, p.InstrPos(mul), fmt.Sprintf("crop unit equals Table 6-1 in all %d configurations", cells))
+		}
+	}
+}
+
+func ruleMediaTagBodyBits(c *Ctx) {
+	p := c.P
+	// VIDEODATA, AVC NALU
+	vm := p.Func("av/format/flv", "(*VideoData).Marshal")
+	am := p.Func("av/format/flv", "(*AudioData).Marshal")
+	if vm == nil || am == nil {
+		c.Lost("flv.VideoData/AudioData.Marshal", "not found")
+		return
+	}
+	avc, _ := pkgConst(p, "av/format/flv", "CodecIDAVC")
+	hevc, _ := pkgConst(p, "av/format/flv", "CodecIDHEVC")
+	nalu, _ := pkgConst(p, "av/format/flv", "H2645PacketTypeNALU")
+	aac, _ := pkgConst(p, "av/format/flv", "SoundFormatAAC")
+	mk := func(fn *ssa.Function) ssa.Value {
+		var out ssa.Value
+		instrs(fn, func(ins ssa.Instruction) {
+			if m, ok := ins.(*ssa.MakeSlice); ok && out == nil {
+				out = m
+			}
+		})
+		return out
+	}
+	nib := func(k int64) string {
+		var parts []string
+		for i := 3; i >= 0; i-- {
+			parts = append(parts, fmt.Sprint((k>>uint(i))&1))
+		}
+		return strings.Join(parts, " ")
+	}
+	byteConst := func(k int64) string { return nib(k>>4) + " " + nib(k&15) }
+	for _, codec := range []int64{avc, hevc} {
+		c.touched(fname(vm))
+		e := newBitEval(p, vm)
+		e.runPath(map[string]int64{"CodecID": codec, "H2645PacketType": nalu})
+		buf := mk(vm)
+		if buf == nil {
+			c.Lost("VideoData.Marshal.buffer", "no buffer")
+			return
+		}
+		pos := p.Pos(vm.Pos())
+		key := fmt.Sprintf("videodata-bits:codec%d", codec)
+		ok := checkBits(c, key, pos, e.readByte(buf, 0), 8, rangeBits("videoData.FrameType", 3, 0)+" "+nib(codec), "VIDEODATA byte 0 (frame type nibble, codec id nibble)")
+		ok = checkBits(c, key, pos, e.readByte(buf, 1), 8, byteConst(nalu), "VIDEODATA byte 1 (AVCPacketType)") && ok
+		for i, hi := range []int{23, 15, 7} {
+			ok = checkBits(c, key, pos, e.readByte(buf, int64(2+i)), 8, rangeBits("videoData.CompositionTime", hi, hi-7), fmt.Sprintf("VIDEODATA byte %d (24-bit composition time)", 2+i)) && ok
+		}
+		for i, hi := range []int{31, 23, 15, 7} {
+			ok = checkBits(c, key, pos, e.readByte(buf, int64(5+i)), 8, rangeBits("len(videoData.Body)", hi, hi-7), fmt.Sprintf("VIDEODATA byte %d (32-bit NAL length)", 5+i)) && ok
+		}
+		if ok {
+			c.OK(key, pos, "frame type|codec, packet type, composition time, NAL length at their positions")
+		}
+	}
+	c.touched(fname(am))
+	e := newBitEval(p, am)
+	e.runPath(map[string]int64{"SoundFormat": aac})
+	buf := mk(am)
+	if buf == nil {
+		c.Lost("AudioData.Marshal.buffer", "no buffer")
+		return
+	}
+	pos := p.Pos(am.Pos())
+	ok := checkBits(c, "audiodata-bits", pos, e.readByte(buf, 0), 8, nib(aac)+" "+rangeBits("audioData.SoundRate", 1, 0)+" audioData.SoundSize[0] audioData.SoundType[0]", "AUDIODATA byte 0 (format, rate, size, type)")
+	ok = checkBits(c, "audiodata-bits", pos, e.readByte(buf, 1), 8, rangeBits("audioData.AACPacketType", 7, 0), "AUDIODATA byte 1 (AACPacketType)") && ok
+	if ok {
+		c.OK("audiodata-bits", pos, "sound format/rate/size/type and AAC packet type at their positions")
+	}
+}
